@@ -206,7 +206,7 @@ func verifWindow(name string, n int, ascii bool) []rune {
 // terminates (inputs ending inside a symbol, comment or metadata included).
 func VerifC04ScanToken() {
 	n := vf.NondetIntRange("len", 0, vf.Param("C04.window", 3))
-	src := verifWindow("r", n, true)
+	src := verifWindow("r", n, vf.Param("C04.wide", 0) == 0) // wide: any Unicode scalar value
 	expSym := vf.NondetIntRange("expSym", 0, 1) == 1
 	expMeta := vf.NondetIntRange("expMeta", 0, 1) == 1
 	vf.Unwind(2*n + 6)
